@@ -107,6 +107,12 @@ CLAIMED["C09"] = dict(
     note="Trusted: Coq kernel + vm_compute; serializer; no hand model of the traversal itself (the index substitution part is C10's model); non-integer real exponents validated numerically only. 2 known findings.",
     design="0.1/C09")
 
+CLAIMED["C01"] = dict(
+    technique="Coq: composition theorem over the stage list translated from compute_form_data by ast (all 2^11 option records by case analysis) + traced scaling factors + end-to-end traced obligations den(preprocessed) = scale * den(original) for a zoo of forms x option combinations",
+    text="PARTIAL (composition). (a) The stage list of compute_form_data / preprocess_form / FormData.__init__ is translated from the source with ast into a Gallina function of the option record on every run; Coq proves for ALL option records that the scaling stage occurs exactly once iff requested and the order constraints the stages rely on, and that any run of the extracted pipeline whose stages are individually meaning-preserving (the other properties) returns meaning' = scale * meaning or raises. (b) The scaling factor built by the real compute_integrand_scaling_factor for every integral type x cell is proved to be |detJ|w / detFJ w / detRJ w / w / 1. (c) The real compute_form_data is run on a zoo of single-integral forms (mass, stiffness, nonlinear, vector, div, coordinate, conditional, sin, boundary, cell volume, facet-normal flux, contravariant and covariant Piola) for every combination of pullbacks, scaling, geometry lowering, Jacobian cancellation and component-tensor removal, and Coq proves for all field values den(preprocessed integrand) = den(scale) * den(integrand after preprocess_form), where the reference and physical frames are connected by hypotheses traced from the real per-stage code (push-forward of every form argument, lowered form of every geometric quantity, chain rule through the affine cell map).",
+    note="Trusted: Coq kernel + vm_compute; py/C01_extract.py; stage soundness is the content of C02-C10, C15, C17, C23 (hypotheses of C01_pipeline_sound); assumed stages: apply_coordinate_derivatives, CoefficientSplitter, do_replace_functions; end-to-end forms are single-integral cell/exterior-facet forms on affine simplices (interval, triangle; tetrahedron and immersed triangle in the thorough tier).",
+    design="0.1/C01")
+
 REASON_PENDING = "model not finished in this revision; not claimed rather than claimed with a non-proof check"
 
 
